@@ -208,6 +208,16 @@ var subC13Export = core.NewSub("C13/export", func(w *core.Worker, c ptEncCase) *
 	if err != nil || q.Equal(p) != 1 || !bytes.Equal(q.Bytes(), c.P.Enc) {
 		return core.Failf("re-import of exported coordinates failed for %s via %s", c.P.Enc, c.Via)
 	}
+	// ... also while a later export of ANOTHER point is alive
+	other := alpha.MakePoint(ref.Mul(big.NewInt(9), ref.Base()), 3)
+	oX, oY, oZ, oT := other.ExtendedCoordinates()
+	q1, err := new(edwards25519.Point).SetExtendedCoordinates(X, Y, Z, T)
+	if err != nil || !bytes.Equal(q1.Bytes(), c.P.Enc) {
+		return core.Failf("coordinates exported from %s (via %s) no longer describe it after another point's coordinates were exported", c.P.Enc, c.Via)
+	}
+	if q3, err := new(edwards25519.Point).SetExtendedCoordinates(oX, oY, oZ, oT); err != nil || q3.Equal(other) != 1 {
+		return core.Failf("the second of two exports alive at once does not re-import to its own point")
+	}
 	// the exported quadruple describes the point as it was when exported:
 	// later use of the source as a receiver must not change it
 	p.Add(p, edwards25519.NewGeneratorPoint())
